@@ -29,7 +29,8 @@ func (c Coverage2) Index(gi GlyphID) (int, bool) {
 
 	// check if gi is the start of a range, but only if sort.Search returned a valid result
 	if idx < num {
-		if rang := c.Ranges[idx]; gi == rang.StartGlyphID {
+		// an inverted range (end < start) covers nothing, and [Len] ignores it
+		if rang := c.Ranges[idx]; gi == rang.StartGlyphID && gi <= rang.EndGlyphID {
 			return int(rang.StartCoverageIndex), true
 		}
 	}
